@@ -354,7 +354,7 @@ func c10Limiter(c *Ctx, allow *ssa.Function, limType *types.Named) {
 		if len(r.Results) != 1 {
 			continue
 		}
-		v := r.Results[0]
+		v := RetVals(r)[0]
 		var cands []ssa.Value
 		if ph, ok := v.(*ssa.Phi); ok {
 			cands = ph.Edges
